@@ -272,6 +272,30 @@ Theorem C06_known_ack_rst : forall st s m t n q',
 Proof. exact rt_known_ack_rst. Qed.
 Print Assumptions C06_known_ack_rst.
 
+(* coap_session_disconnected (reason other than ICMP_ISSUE): exactly the messages of that session
+   leave the queue, one NACK call each, in queue order; every message of every other session keeps
+   its deadline and place (this is C06_queue_cancel at work); covered by C06_one_outcome too *)
+Theorem C06_disconnect : forall st s reason,
+  let (st', o) := rt_disconnect st s reason in
+  sq_abs (rs_base st') (rs_q st') =
+    filter (fun e => negb (rt_sess_match s (snd e))) (sq_abs (rs_base st) (rs_q st)) /\
+  rs_now st' = rs_now st /\
+  let rm := filter (rt_sess_match s) (rt_nodes (rs_q st)) in
+  o = match rm with
+      | [] => [RoNackNoPdu (rs_now st) s reason 0]
+      | _ => map (rt_nack_of (rs_now st) reason) rm
+      end.
+Proof. exact rt_disconnect_spec. Qed.
+Print Assumptions C06_disconnect.
+
+(* as the function was before the repair, the first queued message of the session got two NACK
+   calls (finding F06-3, fixed) *)
+Theorem C06_disconnect_old_refuted : exists st s reason u,
+  reason <> rt_NACK_TOO_MANY_RETRIES /\ reason <> rt_NACK_ICMP_ISSUE /\
+  rt_proj u (snd (rt_disconnect_old st s reason)) = [PNack reason 0 4; PNack reason 0 4].
+Proof. exact rt_disconnect_old_double_nack. Qed.
+Print Assumptions C06_disconnect_old_refuted.
+
 (* ---------------------------------------------------------------- the reported wait *)
 (* In every reachable state a prepare call fires everything that is due (its loop bound is never
    hit) and reports 0 iff nothing is pending, else the distance to the earliest pending deadline,
